@@ -322,6 +322,9 @@ def run_check(prop, tier, seed, replay):
         violations = len(problems)
         rc = 1
     finish(prop, tier, seed, t0, lean, n_obl, n_dis, stats, violations, known_hits, scan, samples, foreign)
+    if tier == "thorough" and rc == 0 and not replay:
+        # the thorough suites leave gigabytes of operation / output files behind: keep them only when there is something to look at
+        shutil.rmtree(work, ignore_errors=True)
     if replay:
         print("replay: " + ("violation reproduced" if rc else "no violation on this input"))
     return rc
